@@ -424,7 +424,10 @@ async fn one_fetch(seed: u64, chn: &c08::Chain, canon: &[validator::Block], sc: 
         let connect = |i: usize| {
             let pnet = peers[i].net.clone();
             let key = n_key_ref.clone();
-            let redial = peers[i].spec.lie == Lie::FlakyOnce;
+            // a peer keeps re-dialling the node, as the real `Runner::run` does for its static outbound peers (a peer that
+            // dialled only once stayed away for good after the node had dropped it for an unrelated failed call: false
+            // alarm `request_lost` in a loaded thorough run)
+            let redial = true;
             let mut rx = kills[i].subscribe();
             s.spawn_bg(async move {
                 let _: Result<(), ctx::Canceled> = scope::run!(ctx, |ctx, s| async {
